@@ -3,7 +3,7 @@ from common import *  # noqa: F401,F403
 import math
 
 RULE = ("all four rule families for every size n <= 12 (quick) / 18 (thorough); random request orders replayed in fresh interpreter processes "
-        "(the memo tables are module globals); Integrate.scalar on random polynomial spline curves (Fraction and float data, default and explicit "
+        "(the memo tables are module globals); Integrate.scalar on random polynomial spline curves (Fraction and float data, integer control points as python ints / numpy int arrays, default and explicit "
         "rules), Integrate.function on per-span polynomials of degree < nnodes (degree < 2n for Gauss-Legendre), Integrate.lenght of random polylines.  "
         "Non-trivial: n >= 3 or a curve with an interior knot; distinct = distinct (family, n) / request orders / curves."
         " Also: request histories with weights-before-nodes and nodes-before-weights, discontinuous polylines for lenght, closed rule on float knots.")
@@ -124,11 +124,17 @@ def run_case(ctx, case):
         U, P, rep, method, nn = c["U"], [tuple(p) for p in c["P"]], c["rep"], c["method"], c["nnodes"]
         p, n, knots = kv_info(U)
         rec.case(case, nontrivial=nontrivial_kv(U))
-        conv = (lambda x: x) if rep == "fraction" else float
+        conv = (lambda x: x) if rep in ("fraction", "intpoints", "npintpoints") else float
         Ui = [conv(x) for x in U]
         Pi = [tuple(conv(x) for x in q) for q in P]
         Ue, Pe = [frac(x) for x in Ui], [tuple(frac(x) for x in q) for q in Pi]
-        curve = make_curve(Ui, Pi, None)
+        if rep == "intpoints":
+            curve = Curve(Ui, [int(q[0]) for q in P])                       # python ints as control points
+        elif rep == "npintpoints":
+            curve = Curve(Ui, np.array([int(q[0]) for q in P]))             # an integer numpy array
+        else:
+            curve = make_curve(Ui, Pi, None)
+        rec.count("rep", rep)
         start = curve_state(curve)
         kwargs = {}
         if method is not None:
@@ -147,13 +153,13 @@ def run_case(ctx, case):
         closed_form = tuple(sum(Pe[i][d] * (Ue[i + p + 1] - Ue[i]) / (p + 1) for i in range(n)) for d in range(len(Pe[0])))
         if ex[0] != "ok" or tuple(ex[1]) != closed_form:
             rec.mismatch("rf.integral vs closed form (internal)", case, ex, closed_form)
-        exact = rep == "fraction" and method in (None, "open", "closed")
+        exact = rep in ("fraction", "intpoints", "npintpoints") and method in (None, "open", "closed")
         ok = (got == closed_form) if exact else pts_close([got], [closed_form], F(1, 10**9))
         if not ok:
             rec.violation("Integrate.scalar differs from sum P_i (u_(i+p+1)-u_i)/(p+1)", case, observed=ser(got), expected=ser(closed_form))
         if exact and has_float(r[1]):
             rec.violation("float introduced by the default exact rule", case)
-        if method in (None, "open") and rep == "fraction":
+        if method in (None, "open") and rep in ("fraction", "intpoints", "npintpoints"):
             m = drv.call("curve.integ", Ue, [list(q) for q in Pe], None, nn, 0)
             l2(rec, "curve.integ", case, got, m, m[0] == "ok" and tuple(m[1]) == got)
         return
@@ -223,6 +229,10 @@ def run(ctx):
         if method == "closed" and p == 0:
             method = None
         nn = None if rng.random() < 0.7 else p + 1 + rng.randint(0, 3)
+        if i % 6 == 2:
+            # integer control points (python ints / an integer numpy array) on Fraction knots: the integral is not an integer
+            rep = rng.choice(["intpoints", "npintpoints"])
+            P = [(F(rng.randint(-9, 9)),) for _ in range(n)]
         run_case(ctx, ser(dict(kind="scalar", U=U, P=P, rep=rep, method=method, nnodes=nn)))
     for i in range(budget(ctx, 40, 500)):
         U = rand_kv(rng, pmax=3, nintmax=3)
